@@ -8,7 +8,7 @@
    whatever formats or ignore patterns were used") is proved for flat trees (one history at the root, no renames) with
    ANY number of generations: C03_unchanged_tree_all_exit_0 and C03_flat_cycle below; for nested histories and
    renames the composition is carried by the lockstep correspondence. *)
-From MHL Require Import Model.Commands Gen.Generated Proofs.BaseFacts Proofs.TreeFacts Proofs.VerifyFacts Proofs.FreshFacts Proofs.HistFacts Proofs.FlatFacts Proofs.ReloadFacts Proofs.NestedFacts.
+From MHL Require Import Model.Commands Gen.Generated Proofs.BaseFacts Proofs.TreeFacts Proofs.VerifyFacts Proofs.FreshFacts Proofs.HistFacts Proofs.FlatFacts Proofs.ReloadFacts Proofs.NestedFacts Proofs.SfNestedFacts.
 
 Theorem C03_verify_reports_exactly : forall Hb matches C cdig t ipats ifile hs,
   load C cdig t = inl hs -> lh_gens (root_hist hs) <> [] ->
@@ -317,6 +317,19 @@ Theorem C03_nested_altered_file_detected : forall Hb matches C cdig h0 kids hs t
   vr_code r = 11%Z /\ In p (vr_mismatch r).
 Proof. exact nested_altered_detected. Qed.
 Print Assumptions C03_nested_altered_file_detected.
+
+(* create -sf over any nesting: the run never aborts, whatever is named (every named file is sealed once, in the history it
+   belongs to, so each record holds one decision); and when every recorded digest is current it exits 0 *)
+Theorem C03_nested_sf_never_aborts : forall Hb matches C cdig ser h0 kids hs req sf ip ifl,
+  wf_tree C (Dir h0 kids) -> load C cdig (Dir h0 kids) = inl hs ->
+  o_outcome (snd (create_sf Hb matches C cdig ser (Dir h0 kids) req sf ip ifl)) <> Abort.
+Proof. exact create_sf_nested_never_aborts. Qed.
+Print Assumptions C03_nested_sf_never_aborts.
+Theorem C03_nested_sf_unchanged_exit_0 : forall Hb matches C cdig ser h0 kids hs req sf ip ifl,
+  wf_tree C (Dir h0 kids) -> load C cdig (Dir h0 kids) = inl hs -> nprev hs -> ncur Hb C hs (Dir h0 kids) ->
+  o_outcome (snd (create_sf Hb matches C cdig ser (Dir h0 kids) req sf ip ifl)) = Exit 0.
+Proof. exact create_sf_nested_unchanged_exit_0. Qed.
+Print Assumptions C03_nested_sf_unchanged_exit_0.
 
 (* non-vacuity: a folder `a` sealed on its own (one generation, one file), placed beside a second file in a tree whose
    root has no history yet: the state holds; the run at the root writes into BOTH histories, exits 0, and the result
